@@ -41,18 +41,35 @@ class CreateContext(Contract):
     path = CONTEXT_PY
     name = 'create_context_from_chart'
     returns = 'val'
-    trusted = False
     props = ('C14', 'C07', 'C08')
-    doc = ('a fresh context per call, holding the given chart, pipeline id, input_kwargs object and meta, a store '
-           'instance and fresh event-manager instances.  NOTE: verified only as an assumed summary of '
-           'DAGPipelineContext.__init__ (its list comprehension over user classes is outside the executor\'s subset)')
-    assumed = True
+    doc = ('a fresh DAGPipelineContext per call, holding the given chart, pipeline id, the caller\'s input_kwargs object and '
+           'meta, a store instance and fresh event-manager instances')
 
     def setup(self, it):
-        raise NotImplementedError
+        st = it.st
+        ch = new_chart(it)
+        ik = st.alloc('dict', map=SymMap.fresh(st, 'input_kwargs'))
+        return None, CallArgs([], dict(chart=ch, input_kwargs=ik, pipeline_id=SymV(st.fresh_val('pipeline_id')),
+                                       meta=SymV(st.fresh_val('meta'))))
+
+    def requires(self, it, pre, a):
+        return [('caller-passes-a-pipeline-id (uuid generation is not modelled)', T(a.pipeline_id, it.st) != NONE),
+                ('caller-passes-meta', T(a.meta, it.st) != NONE)]
 
     def raises(self, it, pre, a):
         return [ExcCase('collaborator-constructor-raised', None, may=True)]
+
+    def ensures(self, it, pre, post, a, res):
+        st = it.st
+        ok = isinstance(res, Ref) and res.cls == CTX_CLS and res.id not in pre.heap
+        out = [('a-fresh-context-object|C08', ok)]
+        if ok:
+            g = lambda f: post.getf(res, f)
+            out += [('holds-the-chart', g('chart').id == a.chart.id),
+                    ('holds-the-callers-input-dictionary-itself|C03,C07', isinstance(g('input_kwargs'), Ref) and g('input_kwargs').id == a.input_kwargs.id),
+                    ('holds-pipeline-id-and-meta', z3.And(T(g('pipeline_id'), st) == T(a.pipeline_id, st), T(g('meta'), st) == T(a.meta, st))),
+                    ('has-a-store-instance|C19', T(g('artifact_store'), st) != NONE)]
+        return out
 
     def make_result(self, it, pre, a):
         st = it.st
@@ -362,3 +379,90 @@ class ChartRun(Contract):
 class _CtxLike:
     def __init__(self, ik):
         self.ik = ik
+
+
+# ======================================================================================
+# DAGPipelineContext.__init__ (replaces the assumed summary of context creation)
+# ======================================================================================
+@contract
+class ContextInit(Contract):
+    path = CONTEXT_PY
+    name = 'DAGPipelineContext.__init__'
+    returns = 'none'
+    props = ('C14', 'C07', 'C08', 'C19')
+    doc = ('the context holds the given chart, pipeline id, the caller\'s input_kwargs object and meta; one store instance built '
+           'from the chart\'s store class (NoOp by default) for this context; one fresh event-manager instance per manager class')
+
+    def setup(self, it):
+        st = it.st
+        ch = new_chart(it)
+        ctx = new_obj(it, CTX_CLS)
+        ik = st.alloc('dict', map=SymMap.fresh(st, 'input_kwargs'))
+        return ctx, CallArgs([], dict(chart=ch, pipeline_id=SymV(st.fresh_val('pipeline_id')), input_kwargs=ik,
+                                      meta=SymV(st.fresh_val('meta'))))
+
+    def requires(self, it, pre, a):
+        return [('caller-passes-a-pipeline-id (uuid generation is not modelled)', T(a.pipeline_id, it.st) != NONE),
+                ('caller-passes-meta', T(a.meta, it.st) != NONE)]
+
+    def raises(self, it, pre, a):
+        return [ExcCase('collaborator-constructor-raised', None, may=True)]
+
+    def modifies(self, it, pre, a):
+        return [(a.self, '*')]
+
+    def ensures(self, it, pre, post, a, res):
+        st = it.st
+        g = lambda f: post.getf(a.self, f)
+        ems = g('_event_managers')
+        classes = pre.getf(pre.getf(a.chart, 'event_managers'), 'items')
+        return [('holds-the-chart', g('chart').id == a.chart.id),
+                ('holds-the-callers-input-dictionary-itself|C03,C07', isinstance(g('input_kwargs'), Ref) and g('input_kwargs').id == a.input_kwargs.id),
+                ('holds-pipeline-id-and-meta', z3.And(T(g('pipeline_id'), st) == T(a.pipeline_id, st), T(g('meta'), st) == T(a.meta, st))),
+                ('one-event-manager-instance-per-manager-class|C14', isinstance(ems, Ref) and z3.simplify(
+                    post.getf(ems, 'items').len == classes.len))]
+
+    def apply_at_call(self, it, fi, self_val, ca):
+        # constructor: the fields do not exist before the call; allocate them as the postcondition describes
+        st = it.st
+        a = self.bind(it, fi, self_val, ca)
+        pre = st.snapshot()
+        for n, f in self.requires(it, pre, a):
+            st.oblige(f'{it.call_stack[-1] if it.call_stack else "<entry>"}#call:{self.name}.pre[{n}]', f)
+            st.assume(as_z3(f))
+        if st.choose([True, True], f'call:{self.name}') == 1:
+            exc = SymV(PyV.exc(st.fresh_int('ecls'), st.fresh_int('eid')))
+            st.assume(PyV.eid(exc.t) >= 0)
+            from pyvc.interp import PyRaise
+            raise PyRaise(exc, 'collaborator constructor raised')
+        classes = st.getf(st.getf(a.chart, 'event_managers'), 'items')
+        ems_items = SymSeq.fresh(st, 'event_managers')
+        st.assume(ems_items.len == (classes.len if isinstance(classes, SymSeq) else len(classes)))
+        store = st.fresh_val('store')
+        st.assume(store != NONE)
+        for k, v in dict(chart=a.chart, pipeline_id=a.pipeline_id, input_kwargs=a.input_kwargs, meta=a.meta,
+                         artifact_store=SymV(store), _event_managers=st.alloc('list', items=ems_items)).items():
+            st.setf(self_val, k, v)
+        st.emit('call', fn=self.name, a=a, res=None, exc=None, pre=pre, post=st.snapshot(), case=None, pre_call=pre)
+        return None
+
+    def effects_spec(self, it, pre, post, a, outcome, value, effects):
+        st = it.st
+        ucs = user_calls(effects)
+        out = []
+        if outcome == 'return':
+            store_cls = T(pre.getf(a.chart, 'artifact_store'), st)
+            noop = [e for e in effects if e.kind == 'alloc' and e.cls == 'NoOpArtifactStore']
+            ok = len(ucs) == 1 and not noop
+            if not ucs:
+                out.append(('the-default-store-is-used-only-when-the-chart-names-none|C19', z3.And(
+                    z3.BoolVal(len(noop) == 1), z3.Not(truthy_term(store_cls)))))
+            else:
+                out.append(('one-store-instance-per-context|C19,C08', ok))
+            if ok:
+                out.append(('store-built-from-the-charts-store-class-with-this-context|C19', z3.And(
+                    z3.Or(T(ucs[0].fn, st) == store_cls, T(ucs[0].fn, st) == attr_fn('default_factory')(store_cls)),
+                    z3.BoolVal(ucs[0].kwargs.get('ctx') is a.self or getattr(ucs[0].kwargs.get('ctx'), 'id', None) == a.self.id))))
+            over = [e for e in effects if e.kind == 'user_calls_over']
+            out.append(('event-managers-instantiated-from-the-charts-manager-classes|C14', len(over) == 1))
+        return out
